@@ -5,7 +5,7 @@ P=$1; shift
 cd /repo || exit 2
 if ! git diff --quiet; then echo "repo dirty"; exit 2; fi
 git apply "$P" || { echo "patch does not apply"; exit 2; }
-trap 'git -C /repo checkout -- .' EXIT
+trap 'git -C /repo checkout -- . ; (cd /verif && ./verif setup >/dev/null 2>&1)' EXIT   # undo, and rebuild so that no binary of the changed tree is left behind
 for id in "$@"; do
   ( cd /verif && VERIF_SEED=${VERIF_SEED:-1} ./verif check $id --tier ${TIER:-quick} 2>&1 | grep -E "^(VIOLATION|OK|KNOWN)|BROKEN|\[driver\]|^    " | cut -c1-400 | head -8 )
 done
